@@ -146,9 +146,21 @@ class Exec:
         v = z3.BitVec('%s_%d' % (tag, len(s.nond)), bits); s.nond.append(v); return v
 
     # ------------------------------------------------------------ solver
+    def _check_retry(s, *extra):
+        """solver.check with two retries at a longer time-out: the 10 s limit is wall-clock time and a loaded machine can
+        exhaust it on an easy query; an answer that stays unknown is reported as such (inconclusive), never guessed."""
+        r = s.solver.check(*extra)
+        if r == z3.unknown:
+            for k in (3, 9):
+                s.stats['solver_retries'] += 1
+                s.solver.set('timeout', s.B['solver_ms'] * k)
+                r = s.solver.check(*extra)
+                if r != z3.unknown: break
+            s.solver.set('timeout', s.B['solver_ms'])
+        return r
     def check(s, *extra):
         t = time.time(); s.stats['queries'] += 1
-        r = s.solver.check(*extra)
+        r = s._check_retry(*extra)
         s.solver_time += time.time() - t
         if r == z3.unknown: raise BoundExceeded('solver returned unknown: ' + s.solver.reason_unknown())
         return r == z3.sat
@@ -172,7 +184,7 @@ class Exec:
         """is pc /\\ c satisfiable?  uses the cached model first."""
         if s.model is not None and z3.is_true(s.model.eval(c, model_completion=True)): return True
         t = time.time(); s.stats['queries'] += 1
-        r = s.solver.check(c)
+        r = s._check_retry(c)
         s.solver_time += time.time() - t
         if r == z3.unknown: raise BoundExceeded('solver returned unknown')
         if r == z3.sat:
@@ -297,7 +309,7 @@ class Exec:
         s.solver.push()
         while True:
             s.stats['queries'] += 1
-            r = s.solver.check()
+            r = s._check_retry()
             if r == z3.unknown: s.solver.pop(); raise BoundExceeded('solver unknown in concretize')
             if r != z3.sat: break
             x = s.solver.model().eval(v, model_completion=True).as_long(); vals.append(x); s.solver.add(v != x)
